@@ -89,14 +89,47 @@ def wrap(n, i):
     return None
 
 
+def mk_sel(s):
+    return [int(x) for x in s[1]] if s[0] == "poslist" else slice(s[1], s[2])
+
+
+def derive(t, op):
+    """the derivations of the Table API: a new table object replaces the current one"""
+    kind = op[0]
+    if kind == "d_addself":
+        return t + t
+    if kind == "d_addrows":
+        return t + t.rows[mk_sel(op[1])]
+    if kind == "d_mul":
+        return t * int(op[1])
+    if kind == "d_copy":
+        return t._copy()
+    if kind == "d_rows":
+        return t.rows[mk_sel(op[1])]
+    if kind == "d_cols":
+        return t.cols[list(op[1])]
+    if kind == "d_concat":
+        return xd.Table.concatenate([t] + [t.rows[mk_sel(s)] for s in op[1]])
+    if kind == "d_t":
+        return t._t
+    raise RuntimeError("unknown derivation " + kind)
+
+
 def run_case(case):
     t = mk_table(case)
     res, orc = [], []
     for op in case["ops"]:
         kind = op[0]
-        cur = [str(x) for x in t._data["name"]]
+        IDX = t._index          # "name"; "columns" on a transposed table
+        if len(op) > 1 and op[1] == "name" and kind in ("getcell", "setcell"):
+            op = [op[0], IDX] + list(op[2:])
+        cur = [str(x) for x in t._data[IDX]]
         exp = None
         try:
+            if kind.startswith("d_"):
+                t = derive(t, op)
+                res.append(["unit"]); orc.append(None)
+                continue
             if kind == "getindex":
                 p = scan(cur, op[1])
                 exp = ["err", "KeyError"] if p is None else ["pos", p]
@@ -107,7 +140,7 @@ def run_case(case):
                 out = ["pos", int(t // mk_row(op[1]))]
             elif kind == "getcell":
                 p = scan(cur, op[2])
-                col = cur if op[1] == "name" else [int(x) for x in t._data[op[1]]]
+                col = cur if op[1] == IDX else [int(x) for x in t._data[op[1]]]
                 if p is None:
                     exp = ["err", "KeyError"]
                 else:
@@ -125,21 +158,21 @@ def run_case(case):
                 out = ["unit"]
                 if exp == ["unit"]:
                     # the write must land on the row the scan designates and nowhere else
-                    newcol = [str(x) for x in t._data["name"]] if op[1] == "name" else [int(x) for x in t._data[op[1]]]
-                    oldcol = cur if op[1] == "name" else None
-                    if op[1] == "name":
+                    newcol = [str(x) for x in t._data[IDX]] if op[1] == IDX else [int(x) for x in t._data[op[1]]]
+                    oldcol = cur if op[1] == IDX else None
+                    if op[1] == IDX:
                         want = list(cur); want[w] = op[3]
                         if newcol != want:
                             exp = ["written", want]; out = ["written", newcol]
             elif kind == "setidxcol":
                 vals = np.array(op[1], dtype=object)
                 if op[2] == "attr":
-                    t.name = vals
+                    setattr(t, IDX, vals)
                 else:
-                    t["name"] = vals
+                    t[IDX] = vals
                 out = ["unit"]; exp = None
             elif kind == "setidxscalar":
-                t["name"] = op[1]
+                t[IDX] = op[1]
                 out = ["unit"]; exp = ["unit"]
             elif kind == "setcol":
                 vals = np.array(op[2], dtype=np.int64)
